@@ -5,6 +5,7 @@ verus! {
 
 //@include ../common/core.rs
 //@include ../common/bytes.rs
+//@include ../common/codec_traits.rs
 
 pub struct LinesCodec;
 
@@ -66,7 +67,33 @@ pub open spec fn is_first_nl(s: Seq<u8>, n: int) -> bool {
     0 <= n < s.len() && s[n] == 10u8 && forall|j: int| 0 <= j < n ==> s[j] != 10u8
 }
 
-impl LinesCodec {
+pub open spec fn first_nl_idx(s: Seq<u8>) -> int { choose|n: int| is_first_nl(s, n) }
+
+pub open spec fn frame_of(o: LineOut) -> Dec<String> {
+    match o { LineOut::Line(l) => Dec::Frame(string_of(l)), LineOut::Invalid => Dec::Error, LineOut::NeedMore => Dec::NeedMore }
+}
+
+/// what is left in the buffer after the final line has been taken at end of stream: a trailing CR stays behind
+pub open spec fn rest_eof(b: Seq<u8>) -> Seq<u8> {
+    if b.len() > 0 && b[b.len() - 1] == 13u8 { seq![13u8] } else { Seq::empty() }
+}
+
+impl Decoder for LinesCodec {
+    type Item = String;
+    type Error = io::Error;
+
+    /// LinesCodec as a state transformer, written from the property text (C15)
+    open spec fn dec(c: Self, b: Seq<u8>) -> (Dec<String>, Seq<u8>, Self) {
+        if !has_nl(b) { (Dec::NeedMore, b, c) }
+        else { (frame_of(spec_line(b, first_nl_idx(b))), b.subrange(first_nl_idx(b) + 1, b.len() as int), c) }
+    }
+
+    open spec fn dec_eof(c: Self, b: Seq<u8>) -> (Dec<String>, Seq<u8>, Self) {
+        if has_nl(b) { Self::dec(c, b) }
+        else if strip_cr(b).len() == 0 { (Dec::NeedMore, b, c) }
+        else if is_utf8(strip_cr(b)) { (Dec::Frame(string_of(strip_cr(b))), rest_eof(b), c) }
+        else { (Dec::Error, rest_eof(b), c) }
+    }
 
 //@extract file=actix-codec/src/lines.rs item="impl Decoder for LinesCodec / fn decode" ret=r props=C15,C13
 //@spec
@@ -86,6 +113,7 @@ impl LinesCodec {
             let o = old(src)@;
             assert(is_first_nl(o, len as int));
             assert(has_nl(o));
+            lemma_first_nl_unique(o, first_nl_idx(o), len as int);
             assert(buf@ =~= o.subrange(0, len as int));
             assert(src@ =~= o.subrange(len as int + 1, o.len() as int));
             axiom_utf8_empty();
@@ -118,6 +146,12 @@ impl LinesCodec {
         !has_nl(old(src)@) && strip_cr(old(src)@).len() > 0 && !is_utf8(strip_cr(old(src)@)) ==> r is Err,
         // whatever is left holds no further line: the next call at end of stream ends the stream   [C13]
         !has_nl(old(src)@) ==> strip_cr(final(src)@).len() == 0 && !has_nl(final(src)@),
+//@insert after="_ => src.split(), };"
+                proof {
+                    let o = old(src)@;
+                    assert(buf@ =~= strip_cr(o));
+                    assert(src@ =~= rest_eof(o));
+                }
 //@end
 
 }
@@ -126,7 +160,7 @@ impl LinesCodec {
 //@spec
     ensures
         r.is_ok() <==> is_utf8(buf@),
-        r matches Ok(o) ==> (o matches Some(s) && s.bytes() == buf@),
+        r matches Ok(o) ==> (o matches Some(s) && s.bytes() == buf@ && s == string_of(buf@)),
 //@end
 
 impl LinesCodec {
@@ -240,6 +274,42 @@ pub proof fn lemma_lines_prefix_stable(s: Seq<u8>, t: Seq<u8>, n: int)
     assert forall|j: int| 0 <= j <= n implies (s + t)[j] == s[j] by { }
     assert((s + t).subrange(0, n) =~= s.subrange(0, n));
     assert((s + t).subrange(n + 1, (s + t).len() as int) =~= s.subrange(n + 1, s.len() as int) + t);
+}
+//@end
+
+
+//@lemma lemma_first_nl_exists props=C13,C15
+pub proof fn lemma_first_nl_exists(s: Seq<u8>, i: int)
+    requires 0 <= i < s.len(), s[i] == 10u8,
+    ensures exists|n: int| is_first_nl(s, n),
+    decreases i,
+{
+    if exists|j: int| 0 <= j < i && s[j] == 10u8 {
+        let j = choose|j: int| 0 <= j < i && s[j] == 10u8;
+        lemma_first_nl_exists(s, j);
+    } else {
+        assert(is_first_nl(s, i));
+    }
+}
+//@end
+
+//@lemma lemma_lines_codec_is_stable props=C13
+/// LinesCodec satisfies both hypotheses of the chunking-independence lemma of unit codec_framed
+pub proof fn lemma_lines_codec_is_stable()
+    ensures need_more_is_noop::<LinesCodec>(), frame_is_prefix_stable::<LinesCodec>(),
+{
+    assert forall|c: LinesCodec, b: Seq<u8>, t: Seq<u8>| #![trigger LinesCodec::dec(c, b), LinesCodec::dec(c, b + t)]
+        LinesCodec::dec(c, b).0 is Frame implies
+        LinesCodec::dec(c, b + t) == (LinesCodec::dec(c, b).0, LinesCodec::dec(c, b).1 + t, LinesCodec::dec(c, b).2) by {
+        assert(has_nl(b));
+        let i0 = choose|i: int| 0 <= i < b.len() && b[i] == 10u8;
+        lemma_first_nl_exists(b, i0);
+        let n = first_nl_idx(b);
+        assert(is_first_nl(b, n));
+        lemma_lines_prefix_stable(b, t, n);
+        assert(has_nl(b + t)) by { assert((b + t)[n] == 10u8); }
+        lemma_first_nl_unique(b + t, first_nl_idx(b + t), n);
+    }
 }
 //@end
 
